@@ -148,6 +148,16 @@ class Ctx:
     def failed_obligations(self):
         return [o for o in self.obligations if not o[1]]
 
+    def refuted_by_known_finding(self, name, key):
+        """a certificate about an input that is a LISTED known finding is expected to be refuted: it is not an obligation of
+        the proof claim (it is reported through the KNOWN-FINDING line and in coverage.obligations_refuted_by_known_findings).
+        Only effective when `key` really is listed in known_findings.txt."""
+        if self.known.match(self.prop, key) is None:
+            return False
+        self.obligations = [o for o in self.obligations if o[0] != name]
+        self.notes.setdefault("obligations_refuted_by_known_findings", []).append({"obligation": name, "known_finding": key})
+        return True
+
     # ---- Lean --------------------------------------------------------
     def write_generated(self, relpath: str, content: str) -> bool:
         """write lean/E3nnVerif/Generated/<relpath> only if content differs; returns True if changed"""
